@@ -145,6 +145,8 @@ type pCase struct {
 	Types   []pType         `json:"types"`
 	Expect  json.RawMessage `json:"expect,omitempty"`
 	Tags    []string        `json:"tags,omitempty"` // free-form labels from the spec (perturbation kinds, non-trivial markers)
+	// Raw: the project exactly as TLC printed it (without "expect"), so that it can be handed back to TLC unchanged
+	Raw json.RawMessage `json:"raw,omitempty"`
 }
 
 var qualRe = regexp.MustCompile(`\b([A-Za-z_][A-Za-z0-9_]*)\.([A-Za-z_][A-Za-z0-9_]*)`)
